@@ -9,6 +9,15 @@ exactly one heartbeat, (c) no heartbeat at a tick when the application sent some
 attempts the library rejects (`sendfail:*` events: the call raises before the write — validation failure, value that cannot be
 encoded, oversized payload); such an attempt transmits nothing, so it neither serves a window of (a) nor excuses a missing
 heartbeat in (b).  Schedules contain them at every phase relative to the ticks (Props/C08Failed.lean: erasable from any history).
+
+Transport flow control (`hw`, `wstop`, `wgo` — see monitor_common): "every pattern of application sends" is quantified on top of
+whatever the *transport* does, and an asyncio transport talks back: when the peer stops reading, the transport buffers and calls the
+session's `pause_writing()`; when the peer reads again, `resume_writing()`.  The oracle is unchanged — an outbound transmission is a
+`transport.write` call, whether the transport passes the bytes on at once or keeps them in a buffer that is already full: the
+property is about the session emitting (a session that goes quiet because its peer is slow is exactly what the peer's heartbeat
+monitor would punish).  Schedules: the peer stops reading at every phase relative to the ticks, for a fraction of an interval up to
+five intervals, on transports whose high-water mark is reached by the first or by a later write; idle and sending applications.
+Model: Model/MonitorFlow.lean (`hbf.run`; the callbacks the transport made are events), theorems Props/C08Flow.lean.
 """
 import itertools
 import json
@@ -17,7 +26,7 @@ import monitor_common as mc
 from monitor_common import own_interval, life, describe
 
 DRIVER = 'drv_C08'
-LEAN_TARGETS = ['NasdaqModel.Props.C08', 'NasdaqModel.Props.C08Failed', 'drv_C08']
+LEAN_TARGETS = ['NasdaqModel.Props.C08', 'NasdaqModel.Props.C08Failed', 'NasdaqModel.Props.C08Flow', 'drv_C08']
 KNOWN_LOCAL = [k for k in mc.KNOWN_LOCAL if k['property'] == 'C08']
 
 
@@ -167,14 +176,74 @@ def unequal_server_cases(rng, n):
     return out
 
 
+# high-water marks (bytes) per session kind: reached by the first buffered write / only by a later one (soup heartbeat 3 bytes,
+# soup application message 4..7, FIX frames 60..120)
+HW = {'soupClient': [0, 5, 12], 'soupServer': [0, 5, 12], 'fix': [0, 100, 260]}
+
+
+def flow_cases(role, I, far, thorough):
+    """the peer stops reading at every phase `a` relative to the ticks and reads again d units later (d from a fraction of an interval
+    to five intervals) x high-water mark reached by the first / a later write x an application that is idle, sends once while the
+    transport is paused, or sends just before the peer stops"""
+    out = []
+    phases = mc.odd_points(0, 2 * I) if thorough else [1, I - 1, I + 1, 2 * I - 1]
+    for hw in HW[role][:3 if thorough else 2]:
+        for a in phases:
+            for d in (2, I, 2 * I, 2 * I + 2, 3 * I, 5 * I):
+                for app in ('idle', 'send-paused', 'send-before'):
+                    if (app == 'send-before' and (a < 3 or not thorough)) or (app == 'send-paused' and d < 4):
+                        continue
+                    b = a + d
+                    H = b + 3 * I + 1
+                    ev = [[a, 'wstop'], [b, 'wgo']]
+                    if app == 'send-paused':
+                        ev.append([a + 2 * (d // 4), 'send'])       # an odd instant strictly inside (a, b)
+                    elif app == 'send-before':
+                        ev.append([a - 2, 'send'])
+                    if role == 'soupServer':
+                        out.append({'role': role, 'ci': I, 'si': I, 'hw': hw, 'events': mc.merge(ev, mc.feed(6, H)), 'horizon': H})
+                    else:
+                        out.append({'role': role, 'ci': I, 'si': far, 'hw': hw, 'events': mc.merge(ev), 'horizon': H})
+    return out
+
+
+def add_flow(rng, case):
+    """a write buffer and one to three stop / read episodes of the peer at random odd instants (also partial reads and a kernel that
+    still takes some bytes) on top of a random schedule"""
+    H, I = case['horizon'], own_interval(case)
+    odd = mc.odd_points(0, H)
+    ev = list(case['events'])
+    for _ in range(rng.choice([1, 1, 2, 3])):
+        a = rng.choice(odd)
+        d = rng.choice([2, I, 2 * I, 2 * I + 2, 3 * I, 4 * I + 2, 2 * rng.randrange(1, 3 * I)])
+        k = rng.choice([0, 0, 0, 2, 50])
+        ev.append([a, 'wstop' + (f':{k}' if k else '')])
+        if rng.random() < 0.25:
+            ev.append([a + 2 * rng.randrange(1, d // 2 + 1), f'wgo:{rng.choice([1, 3, 8, 70])}'])
+        if rng.random() < 0.9:
+            ev.append([a + d, 'wgo'])
+    ev = [e for e in ev if 0 < e[0] < H]
+    hw = rng.choice(HW[case['role']] + [HW[case['role']][-1] * 4])
+    c = dict(case, events=mc.merge(ev), hw=hw)
+    if rng.random() < 0.5:
+        c['lw'] = rng.choice([0, hw // 4, hw // 2, hw])
+    return c
+
+
 # ------------------------------------------------------------------ one case
-def check_case(ctx, case, model_line, tag):
-    obs = mc.impl_run(case)
+def check_case(ctx, case, model_line, tag, obs=None):
+    if obs is None:
+        obs = mc.impl_run(case)
     ctx.case(describe(case), nontrivial=bool(case['events']) or tag == 'exhaustive', sample_every=211)
     ctx.count(f"{tag}:{case['role']}")
     for _t, ev in case['events']:
         if ev.startswith('send'):
             ctx.count(f"{case['role']}:{ev}")
+    if case.get('hw') is not None:
+        fl = obs.get('flow') or []
+        ctx.count('flow:' + ('paused-over-two-intervals' if any(
+            e == 'wpause' and min([t2 for t2, e2 in fl if e2 == 'wresume' and t2 >= t] + [case['horizon']]) - t > 2 * own_interval(case)
+            for t, e in fl if isinstance(t, int)) else 'paused' if fl else 'never-paused'))
     if 'error' in obs:
         ctx.count('impl-error')
     else:
@@ -207,7 +276,7 @@ def check_case(ctx, case, model_line, tag):
             same = [w for w in ci['writes'] if w[0] < upto] == [w for w in cm['writes'] if w[0] < upto] \
                 and ci.get('offgrid') == cm.get('offgrid')
         if not same:
-            ctx.disagree(f"hb.run {describe(case)[:150]}: implementation {json.dumps(ci)[:300]} vs model {json.dumps(cm)[:300]}",
+            ctx.disagree(f"{'hbf' if case.get('hw') is not None else 'hb'}.run {describe(case)[:150]}: implementation {json.dumps(ci)[:300]} vs model {json.dumps(cm)[:300]}",
                          dict(case, kind='correspondence'))
     return obs
 
@@ -220,13 +289,20 @@ def run(ctx):
                        'the write), over four intervals x 3 session kinds, then random schedules (isolated, tick-hugging, bursts, '
                        'periodic; rejected attempts isolated / once per interval / tick-hugging / retried after a send; explicit heartbeats; '
                        'peer feeding / silent / far; application close), unequal client/server intervals; '
+                       'transport write flow control (write buffer with high/low-water marks, the transport calls pause_writing() / '
+                       'resume_writing() as asyncio does): the peer stops reading at every phase relative to the ticks for 2 units .. 5 intervals '
+                       'x high-water mark reached by the first / a later write x idle / sending application, and 1..3 stop/read episodes '
+                       '(partial reads, kernel slack) on 12% of the random schedules; '
                        'distinct = distinct (role, intervals, schedule, horizon)')
+    ctx.notes.append('an outbound transmission is a transport.write call: a write accepted into a buffer that is over its high-water mark '
+                     'counts (the property is about the session emitting); the pause_writing()/resume_writing() calls the fake transport made '
+                     'are handed to the model as events at the instants they happened (Model/MonitorFlow.lean)')
     ctx.notes.append('ties between a monitor tick and an external event are excluded from generated schedules; heartbeats written at the '
                      'instant the remote monitor closes the session are not compared (timer-heap order of equal floats)')
     cases = []
     for c in mc.load_corpus('C08'):
         if 'role' in c:
-            cases.append(('corpus', {k: c[k] for k in ('role', 'ci', 'si', 'events', 'horizon')}))
+            cases.append(('corpus', mc.case_of(c)))
     for role in mc.ROLES:
         for c in exhaustive(role, 8, 3 if thorough else 2, 400):
             cases.append(('exhaustive', c))
@@ -235,25 +311,40 @@ def run(ctx):
                 cases.append(('exhaustive', c))
     for c in unequal_server_cases(rng, 30 if thorough else 8):
         cases.append(('server-unequal', c))
+    for role in mc.ROLES:
+        for c in flow_cases(role, 8, 400, thorough):
+            cases.append(('flow', c))
+        if thorough:
+            for c in flow_cases(role, 4, 402, False):
+                cases.append(('flow', c))
     for _ in range(20000 if thorough else 1500):
-        cases.append(('random', random_case(rng, thorough)))
+        c = random_case(rng, thorough)
+        if rng.random() < 0.12:
+            cases.append(('random-flow', add_flow(rng, c)))
+        else:
+            cases.append(('random', c))
     for tag, c in cases:
         if tag != 'corpus':
             mc.vary_sends(rng, c)
-    lines = [mc.model_request(c) for _, c in cases]
+    # the implementation runs first: the flow-control callbacks its transport made are part of the history the model is asked about
+    observed = mc.impl_run_many([c for _, c in cases])
+    lines = [mc.model_request(c, o.get('flow')) for (_, c), o in zip(cases, observed)]
     ans = ctx.driver.ask(lines) if ctx.driver.available else [None] * len(lines)
-    for (tag, c), a in zip(cases, ans):
-        check_case(ctx, c, a, tag)
+    for (tag, c), o, a in zip(cases, observed, ans):
+        check_case(ctx, c, a, tag, obs=o)
 
 
 def replay(ctx, path):
     r = json.load(open(path))
     rep = r.get('replay') or (r.get('no_longer_checks') or [{}])[-1].get('case') or r
-    case = {k: rep[k] for k in ('role', 'ci', 'si', 'events', 'horizon')}
+    case = mc.case_of(rep)
     ctx.cov['rule'] = 'replay of ' + path
-    line = ctx.driver.ask([mc.model_request(case)])[0] if ctx.driver.available else None
-    obs = check_case(ctx, case, line, 'replay')
+    obs = mc.impl_run(case)
+    line = ctx.driver.ask([mc.model_request(case, obs.get('flow'))])[0] if ctx.driver.available else None
+    check_case(ctx, case, line, 'replay', obs=obs)
     print('case          :', describe(case))
     print('implementation:', json.dumps(mc.canon(obs)))
+    if case.get('hw') is not None:
+        print('transport     :', 'flow-control callbacks made', json.dumps(obs.get('flow')))
     print('model         :', json.dumps(mc.canon(mc.parse_model(line))) if line else None)
     print('oracle        :', oracle(case, obs) or 'holds')
